@@ -9,7 +9,30 @@ the second half of a double-width character, where the span buffer keeps the cha
 grid buffer blanks it."
 
 Model: both buffer kinds are the same functions of `TM/Screen.lean` / `TM/Term.lean`, selected by
-the field `Term.pol : WidePolicy` (`.keep` = span buffer, `.blank` = grid buffer).
+the field `Term.pol : WidePolicy` (`.keep` = span buffer, `.blank` = grid buffer). The file is
+self-contained (imports only the model); `effW` / `TextClean` repeat the definition / hypotheses
+of `TM.C03.effW` / `TM.C03.put_keep_eq_blank`.
+
+* `Term.withPol t p`: the state `t` backed by buffer kind `p`; `obsEq t₁ t₂`: all fields but `pol`
+  equal (`Lemmas.obsEq_iff`: iff `t₁.withPol p = t₂.withPol p`); §1 `obsEq_observables`: what
+  that means cell by cell.
+* §2 `apply_nontext`: every token that is not text (controls, ESC, all CSI, OSC, DCS) gives the
+  same state up to `pol` and the same events.
+* §3 text. `landsOnCont s w0`: the column really written (after the right-edge adjustment of
+  `Scr.put`) is a continuation cell. `put_policy_irrelevant` / `apply_text_off_cont`: when it is
+  not, the policy is irrelevant (no well-formedness needed). `landsOnCont_eq`: its value on a
+  well-formed screen; `textClean_landsOff`, `apply_text_clean`: the form with `Scr.inv` and the
+  hypotheses of `TM.C03.put_keep_eq_blank`.
+* §4 `resize_policy_independent`.
+* §5 runs of operations (tokens and resizes): `step_obsEq`, `offCont_run_obsEq`,
+  `offCont_run_equivalent` (exact condition, no invariant), `clean_run_equivalent` (`CleanAt`:
+  `Scr.inv` and not on a continuation cell at every text step), `clean_run_same_display`,
+  `cleanRun_transfer`, and `clean_run_equivalent_of_invariant` (the `Scr.inv` part discharged by
+  any preserved invariant, e.g. the one of `Props/C02.lean`).
+* §6 the same for the byte-level read loop: `run_equivalent`, `feed_equivalent`.
+* §7 `sanctioned_only`, `sanctioned_only_inv` (a difference can only come from a character
+  written onto a continuation cell), `sanctioned_difference`, `sanctioned_difference_run` (there
+  the span buffer keeps the wide character and the grid buffer blanks it).
 -/
 namespace TM
 
@@ -598,4 +621,321 @@ theorem clean_run_same_display (cw : Nat → Nat) (w h : Nat) (ops : List Op)
   exact ⟨o.1 x y, o.2.2.2.2.2.1, o.2.2.2.2.2.2.1, o.2.2.2.2.2.2.2.2.2.1, o.2.2.2.2.2.2.2.2.2.2.1,
     o.2.2.2.1, o.2.2.2.2.1, o.2.2.2.2.2.2.2.2.2.2.2.2.1, o.2.2.2.2.2.2.2.2.2.2.2.2.2.1⟩
 
+/-! ### the well-formedness hypothesis discharged by an invariant -/
+
+/-- the clean-step predicate without the well-formedness part: only "the write does not start on
+    a continuation cell", in the explicit form of `TM.C03.put_keep_eq_blank` -/
+def NoContAt (cw : Nat → Nat) (t : Term) : Op → Prop
+  | .tok (.text _ cp) =>
+    contAt (t.scr.row t.scr.cy) t.scr.cx = false ∧
+    (t.scr.cx + effW t.scr (cw cp) ≤ t.scr.w ∨ t.scr.wrap = true ∨
+      contAt (t.scr.row t.scr.cy) (t.scr.w - effW t.scr (cw cp)) = false)
+  | _ => True
+
+namespace Lemmas
+
+theorem setScr_pol (t : Term) (s : Scr) : (t.setScr s).pol = t.pol := by
+  unfold Term.setScr; split <;> rfl
+
+/-- no operation changes the buffer kind -/
+theorem step_pol (cw : Nat → Nat) (t : Term) (op : Op) : (Op.step cw t op).1.pol = t.pol := by
+  cases op with
+  | resize w h => rfl
+  | tok k =>
+    cases hk : isText k with
+    | false =>
+      have := apply_nontext cw t t.pol k hk
+      rw [withPol_self] at this
+      show (Term.apply cw t k).1.pol = t.pol
+      rw [this]; rfl
+    | true =>
+      cases k with
+      | text s cp => exact setScr_pol _ _
+      | _ => cases hk
+
+end Lemmas
+open Lemmas
+
+/-- **C20 for runs, with the invariant supplied from outside.** Let `I` be any state invariant
+    of grid-buffer terminals that implies `Scr.inv` of the active screen and is preserved by the
+    operations satisfying `V` (for instance `TM.Term.inv` of `Props/C02.lean`, preserved by every
+    token — `TM.C02.apply_inv_blank` — and by every resize to a size `≥ 1×1`). Then for runs of
+    valid operations the well-formedness part of `CleanAt` is automatic: it is enough that no
+    character is written starting on a continuation cell. -/
+theorem clean_run_equivalent_of_invariant (cw : Nat → Nat) (I : Term → Prop) (V : Op → Prop)
+    (hI : ∀ t, I t → t.scr.inv = true)
+    (hstep : ∀ t op, t.pol = .blank → I t → V op → I (Op.step cw t op).1)
+    {t₁ t₂ : Term} (ht : obsEq t₁ t₂) (hp : t₂.pol = .blank) (h0 : I t₂) (ops : List Op)
+    (hv : ∀ op ∈ ops, V op) (hc : AlongRun (NoContAt cw) cw t₁ ops) :
+    CleanRun cw t₁ ops ∧
+    obsEq (runOps cw t₁ ops).1 (runOps cw t₂ ops).1 ∧ (runOps cw t₁ ops).2 = (runOps cw t₂ ops).2 := by
+  suffices h : CleanRun cw t₁ ops from
+    ⟨h, offCont_run_obsEq cw ht ops (alongRun_mono (fun _ _ => cleanAt_offCont) cw _ ops h)⟩
+  induction ops generalizing t₁ t₂ with
+  | nil => trivial
+  | cons op ops ih =>
+    obtain ⟨h1, h2⟩ := hc
+    have hinv : t₁.scr.inv = true := by rw [scr_eq_of_obsEq ht]; exact hI _ h0
+    have hclean : CleanAt cw t₁ op := by
+      cases op with
+      | resize w h => trivial
+      | tok k =>
+        cases k with
+        | text s cp => exact ⟨hinv, h1.1, h1.2⟩
+        | _ => trivial
+    refine ⟨hclean, ?_⟩
+    exact ih (step_obsEq cw ht op (cleanAt_offCont hclean)).1
+      (by rw [step_pol]; exact hp) (hstep _ _ hp h0 (hv _ List.mem_cons_self))
+      (fun o ho => hv o (List.mem_cons_of_mem _ ho)) h2
+
+/-! ## 6. The read loop on bytes -/
+
+/-- `P` holds for every token the read loop `runFuel` consumes from `bs`, at the state in which
+    it is consumed -/
+def AlongBytes (P : Term → Op → Prop) (cw : Nat → Nat) : Nat → Term → Bytes → Prop
+  | 0, _, _ => True
+  | fuel+1, t, bs =>
+    match next bs with
+    | .need => True
+    | .tok tk n => P t (.tok tk) ∧ AlongBytes P cw fuel (t.apply cw tk).1 (bs.drop n)
+
+/-- the input `bs`, read from state `t`, never writes a character starting on a continuation cell -/
+def CleanInput (cw : Nat → Nat) (t : Term) (bs : Bytes) : Prop :=
+  AlongBytes (CleanAt cw) cw (bs.length + 1) t bs
+
+def AlongBytes.dec (P : Term → Op → Prop) [∀ t op, Decidable (P t op)] (cw : Nat → Nat) :
+    (fuel : Nat) → (t : Term) → (bs : Bytes) → Decidable (AlongBytes P cw fuel t bs)
+  | 0, _, _ => isTrue trivial
+  | fuel+1, t, bs => by
+    unfold AlongBytes
+    exact match next bs with
+    | .need => isTrue trivial
+    | .tok tk n =>
+      have := AlongBytes.dec P cw fuel (t.apply cw tk).1 (bs.drop n)
+      inferInstanceAs (Decidable (P t (.tok tk) ∧ AlongBytes P cw fuel (t.apply cw tk).1 (bs.drop n)))
+
+instance (cw : Nat → Nat) (t : Term) (bs : Bytes) : Decidable (CleanInput cw t bs) :=
+  AlongBytes.dec _ cw _ t bs
+
+namespace Lemmas
+
+theorem alongBytes_mono {P Q : Term → Op → Prop} (hPQ : ∀ t op, P t op → Q t op) (cw : Nat → Nat)
+    (fuel : Nat) (t : Term) (bs : Bytes) (h : AlongBytes P cw fuel t bs) : AlongBytes Q cw fuel t bs := by
+  induction fuel generalizing t bs with
+  | zero => trivial
+  | succ fuel ih =>
+    unfold AlongBytes at h ⊢
+    cases hn : next bs with
+    | need => trivial
+    | tok tk n =>
+      rw [hn] at h
+      exact ⟨hPQ _ _ h.1, ih _ _ h.2⟩
+
+theorem runFuel_obsEq (cw : Nat → Nat) (fuel : Nat) {t₁ t₂ : Term} (ht : obsEq t₁ t₂) (bs : Bytes)
+    (evs : List Ev) (h : AlongBytes (OffContAt cw) cw fuel t₁ bs) :
+    obsEq (runFuel cw fuel t₁ bs evs).1 (runFuel cw fuel t₂ bs evs).1 ∧
+    (runFuel cw fuel t₁ bs evs).2 = (runFuel cw fuel t₂ bs evs).2 := by
+  induction fuel generalizing t₁ t₂ bs evs with
+  | zero => exact ⟨ht, rfl⟩
+  | succ fuel ih =>
+    unfold AlongBytes at h
+    unfold runFuel
+    cases hn : next bs with
+    | need => exact ⟨ht, rfl⟩
+    | tok tk n =>
+      rw [hn] at h
+      obtain ⟨h1, h2⟩ := h
+      obtain ⟨e1, e2⟩ := step_obsEq cw ht (.tok tk) h1
+      have e2' : (Term.apply cw t₁ tk).2 = (Term.apply cw t₂ tk).2 := e2
+      simp only [e2']
+      exact ih e1 _ _ h2
+
+end Lemmas
+open Lemmas
+
+/-- **C20 on byte streams.** The read loop `run` (tokeniser and terminal) on the same bytes from
+    two observationally equal terminals: if no character is written starting on a continuation
+    cell, the final states are observationally equal, the events are identical and the same bytes
+    stay unconsumed. -/
+theorem run_equivalent (cw : Nat → Nat) {t₁ t₂ : Term} (ht : obsEq t₁ t₂) (bs : Bytes)
+    (h : CleanInput cw t₁ bs) :
+    obsEq (run cw t₁ bs).1 (run cw t₂ bs).1 ∧ (run cw t₁ bs).2.1 = (run cw t₂ bs).2.1 ∧
+    (run cw t₁ bs).2.2 = (run cw t₂ bs).2.2 := by
+  have := runFuel_obsEq cw (bs.length + 1) ht bs []
+    (alongBytes_mono (fun _ _ => cleanAt_offCont) cw _ _ _ h)
+  unfold run
+  exact ⟨this.1, by rw [this.2], by rw [this.2]⟩
+
+/-- the same for the arrival of one chunk at the reader (`Sys.feed`), which may complete a
+    sequence whose beginning is still pending -/
+theorem feed_equivalent (cw : Nat → Nat) (s₁ s₂ : Sys) (ht : obsEq s₁.t s₂.t)
+    (hp : s₁.pending = s₂.pending) (chunk : Bytes)
+    (h : CleanInput cw s₁.t (s₁.pending ++ chunk)) :
+    obsEq (s₁.feed cw chunk).1.t (s₂.feed cw chunk).1.t ∧
+    (s₁.feed cw chunk).1.pending = (s₂.feed cw chunk).1.pending ∧
+    (s₁.feed cw chunk).2 = (s₂.feed cw chunk).2 := by
+  have := run_equivalent cw ht (s₁.pending ++ chunk) h
+  unfold Sys.feed
+  rw [← hp]
+  exact ⟨this.1, this.2.2, this.2.1⟩
+
+/-! ## 7. The sanctioned difference, and nothing else -/
+
+/-- **Only a write onto a continuation cell can tell the buffer kinds apart.** If one operation
+    applied to two observationally equal terminals gives states that are not observationally
+    equal, or different events, then the operation is a printable character and the column where
+    it is written is a continuation cell. -/
+theorem sanctioned_only (cw : Nat → Nat) {t₁ t₂ : Term} (ht : obsEq t₁ t₂) (op : Op)
+    (hdiff : ¬ (obsEq (Op.step cw t₁ op).1 (Op.step cw t₂ op).1 ∧
+      (Op.step cw t₁ op).2 = (Op.step cw t₂ op).2)) :
+    ∃ stored cp, op = .tok (.text stored cp) ∧ landsOnCont t₁.scr (cw cp) = true := by
+  have key : ¬ OffContAt cw t₁ op := fun h => hdiff (step_obsEq cw ht op h)
+  cases op with
+  | resize w h => exact absurd trivial key
+  | tok k =>
+    cases k with
+    | text s cp =>
+      refine ⟨s, cp, rfl, ?_⟩
+      cases hl : landsOnCont t₁.scr (cw cp) with
+      | true => rfl
+      | false => exact absurd hl key
+    | _ => exact absurd trivial key
+
+/-- the same for one token on the span-buffer and the grid-buffer version of one state, with the
+    written column spelled out on a well-formed screen: the character fits and the cursor is on
+    a continuation cell, or it is pulled back from the right edge (autowrap off) onto one -/
+theorem sanctioned_only_inv (cw : Nat → Nat) (t : Term) (tok : Tok) (hinv : t.scr.inv = true)
+    (hdiff : ¬ (obsEq (Term.apply cw (t.withPol .keep) tok).1 (Term.apply cw (t.withPol .blank) tok).1 ∧
+      (Term.apply cw (t.withPol .keep) tok).2 = (Term.apply cw (t.withPol .blank) tok).2)) :
+    ∃ stored cp, tok = .text stored cp ∧
+      ((t.scr.cx + effW t.scr (cw cp) ≤ t.scr.w ∧ contAt (t.scr.row t.scr.cy) t.scr.cx = true) ∨
+       (t.scr.w < t.scr.cx + effW t.scr (cw cp) ∧ t.scr.wrap = false ∧
+        contAt (t.scr.row t.scr.cy) (t.scr.w - effW t.scr (cw cp)) = true)) := by
+  have ht : obsEq (t.withPol .keep) (t.withPol .blank) :=
+    obsEq_trans (obsEq_withPol _ _) (obsEq_symm (obsEq_withPol _ _))
+  obtain ⟨s, cp, hop, hl⟩ := sanctioned_only cw ht (.tok tok) hdiff
+  refine ⟨s, cp, by injection hop, ?_⟩
+  rw [withPol_scr, landsOnCont_eq _ _ hinv] at hl
+  split at hl
+  · next hfit => exact Or.inl ⟨hfit, hl⟩
+  · next hfit =>
+    split at hl
+    · cases hl
+    · next hw => exact Or.inr ⟨by omega, by simpa using hw, hl⟩
+
+/-! ## Examples: the sanctioned difference is real; the hypotheses are satisfiable -/
+
+section Examples
+
+abbrev exD : Style := Style.default
+/-- a double-width character -/
+abbrev exZi : Bytes := [0xE5, 0xAD, 0x97]
+/-- a width function: East Asian wide from U+1100 on -/
+def exCw (cp : Nat) : Nat := if cp ≥ 0x1100 then 2 else 1
+
+/-- a 3×1 terminal whose row is `字`(2 cells) `a`, cursor on the second half of `字` -/
+def exTerm : Term :=
+  { Term.init .keep 3 1 with
+    main := { Scr.init 3 1 with
+      grid := [[⟨.ch exZi 2, exD⟩, ⟨.cont, exD⟩, ⟨.ch [0x61] 1, exD⟩]], cx := 1 } }
+
+/-- **The sanctioned difference.** Writing `x` with the cursor on the second half of a
+    double-width character: the span buffer keeps the character and stores `x` after it, the grid
+    buffer blanks the character and stores `x` at the cursor. -/
+theorem sanctioned_difference :
+    exTerm.scr.inv = true ∧ landsOnCont exTerm.scr (exCw 0x78) = true ∧
+    (Term.apply exCw (exTerm.withPol .keep) (.text [0x78] 0x78)).1.scr.row 0 =
+      [⟨.ch exZi 2, exD⟩, ⟨.cont, exD⟩, ⟨.ch [0x78] 1, exD⟩] ∧
+    (Term.apply exCw (exTerm.withPol .blank) (.text [0x78] 0x78)).1.scr.row 0 =
+      [blank exD, ⟨.ch [0x78] 1, exD⟩, ⟨.ch [0x61] 1, exD⟩] := by
+  decide
+
+/-- `字`, `CSI 2 G` (cursor to column 2, the second half), `x` -/
+def exDirtyOps : List Op :=
+  [.tok (.text exZi 0x5B57), .tok (.csi 0 [2] true 0x47), .tok (.text [0x78] 0x78)]
+
+/-- the same from the initial states, driven by the same three operations; the first two steps
+    are clean, the third is not -/
+theorem sanctioned_difference_run :
+    (runOps exCw (Term.init .keep 3 1) exDirtyOps).1.scr.row 0 =
+      [⟨.ch exZi 2, exD⟩, ⟨.cont, exD⟩, ⟨.ch [0x78] 1, exD⟩] ∧
+    (runOps exCw (Term.init .blank 3 1) exDirtyOps).1.scr.row 0 =
+      [blank exD, ⟨.ch [0x78] 1, exD⟩, blank exD] ∧
+    CleanRun exCw (Term.init .keep 3 1) (exDirtyOps.take 2) ∧
+    ¬ CleanRun exCw (Term.init .keep 3 1) exDirtyOps := by
+  decide
+
+/-- a clean script on a 4×2 screen: `a`, `字`, autowrap on, `字` (wraps to the next row), `CUP`,
+    `b`, `c` (on the first half of `字`: allowed, blanks it under both kinds), `CUP 2;1`, `EL`,
+    `IND` (scrolls), `Resize(6,3)`, `字`, `SGR 1` -/
+def exCleanOps : List Op :=
+  [.tok (.text [0x61] 0x61), .tok (.text exZi 0x5B57), .tok (.csi 0x3f [7] true 0x68),
+   .tok (.text exZi 0x5B57), .tok (.csi 0 [] true 0x48), .tok (.text [0x62] 0x62),
+   .tok (.text [0x63] 0x63), .tok (.csi 0 [2, 1] true 0x48), .tok (.csi 0 [] true 0x4b),
+   .tok (.esc [] 0x44), .resize 6 3, .tok (.text exZi 0x5B57), .tok (.csi 0 [1] true 0x6d)]
+
+-- hypothesis of `clean_run_equivalent` / `clean_run_same_display`
+example : CleanRun exCw (Term.init .keep 4 2) exCleanOps := by decide
+-- and the script really leaves wide characters on the screen
+example : (runOps exCw (Term.init .keep 4 2) (exCleanOps.take 4)).1.scr.grid =
+    [[⟨.ch [0x61] 1, exD⟩, ⟨.ch exZi 2, exD⟩, ⟨.cont, exD⟩, blank exD],
+     [⟨.ch exZi 2, exD⟩, ⟨.cont, exD⟩, blank exD, blank exD]] := by decide
+
+-- hypothesis of `run_equivalent`: the bytes `a 字 ESC[?7h 字 ESC[H b ESC[K` and an incomplete `ESC[`
+def exBytes : Bytes :=
+  [0x61, 0xE5, 0xAD, 0x97, 0x1b, 0x5b, 0x3f, 0x37, 0x68, 0xE5, 0xAD, 0x97, 0x1b, 0x5b, 0x48, 0x62,
+   0x1b, 0x5b, 0x4b, 0x1b, 0x5b]
+example : CleanInput exCw (Term.init .keep 4 2) exBytes := by decide
+set_option maxRecDepth 20000 in
+example : (run exCw (Term.init .keep 4 2) exBytes).1.scr.grid =
+    [[⟨.ch [0x62] 1, exD⟩, blank exD, blank exD, blank exD],
+     [⟨.ch exZi 2, exD⟩, ⟨.cont, exD⟩, blank exD, blank exD]] ∧
+    (run exCw (Term.init .keep 4 2) exBytes).2.2 = [0x1b, 0x5b] := by decide
+
+-- hypotheses of `apply_text_clean` on a screen holding a wide character (cursor after it)
+example : let t : Term := { exTerm with main := { exTerm.main with cx := 2 } }
+    t.scr.inv = true ∧ contAt (t.scr.row t.scr.cy) t.scr.cx = false ∧
+    t.scr.cx + effW t.scr (exCw 0x78) ≤ t.scr.w := by decide
+
+-- `OffContAt` is weaker than `CleanAt`: cursor on the second half of `字` in the last column,
+-- autowrap off, a wide character is pulled back onto the *first* half
+example : let t : Term := { Term.init .keep 2 1 with
+      main := { Scr.init 2 1 with grid := [[⟨.ch exZi 2, exD⟩, ⟨.cont, exD⟩]], cx := 1 } }
+    t.scr.inv = true ∧ ¬ CleanAt exCw t (.tok (.text exZi 0x5B57)) ∧
+    OffContAt exCw t (.tok (.text exZi 0x5B57)) := by decide
+
+-- hypothesis of `sanctioned_only` is satisfiable: `sanctioned_difference` gives different rows
+example : ¬ obsEq (Term.apply exCw (exTerm.withPol .keep) (.text [0x78] 0x78)).1
+    (Term.apply exCw (exTerm.withPol .blank) (.text [0x78] 0x78)).1 := by
+  intro h
+  have := (obsEq_observables h).1 0 0
+  revert this
+  decide
+
+end Examples
+
 end TM.C20
+
+#print axioms TM.C20.obsEq_observables
+#print axioms TM.C20.apply_nontext
+#print axioms TM.C20.apply_nontext_obsEq
+#print axioms TM.C20.put_policy_irrelevant
+#print axioms TM.C20.landsOnCont_eq
+#print axioms TM.C20.textClean_landsOff
+#print axioms TM.C20.apply_text_off_cont
+#print axioms TM.C20.apply_text_clean
+#print axioms TM.C20.resize_policy_independent
+#print axioms TM.C20.step_obsEq
+#print axioms TM.C20.offCont_run_obsEq
+#print axioms TM.C20.offContRun_transfer
+#print axioms TM.C20.cleanRun_transfer
+#print axioms TM.C20.offCont_run_equivalent
+#print axioms TM.C20.clean_run_equivalent
+#print axioms TM.C20.clean_run_same_display
+#print axioms TM.C20.clean_run_equivalent_of_invariant
+#print axioms TM.C20.run_equivalent
+#print axioms TM.C20.feed_equivalent
+#print axioms TM.C20.sanctioned_only
+#print axioms TM.C20.sanctioned_only_inv
+#print axioms TM.C20.sanctioned_difference
+#print axioms TM.C20.sanctioned_difference_run
